@@ -341,7 +341,12 @@ def _r3(ctx):
     prog = ctx.prog
     ctx.rule("R-C18-3", floor=2, what="TS = TN^(1/(-slope)) agrees with the Woehler accessor's TS = TN^(1/k_1), k_1 = -slope")
     f = prog.func(PKG + "elementary:Elementary._pearl_chain_method")
-    ts = [s for s in f.node.body if isinstance(s, ast.Assign) and isinstance(s.targets[0], ast.Name) and s.targets[0].id == "TS"]
+    ret = [s for s in f.node.body if isinstance(s, ast.Return)]
+    if not (ret and isinstance(ret[-1].value, ast.Tuple) and len(ret[-1].value.elts) == 2 and
+            all(isinstance(x, ast.Name) for x in ret[-1].value.elts)):
+        raise AnalysisError("_pearl_chain_method: (TN, TS) return not found")
+    tn_name, ts_name = (x.id for x in ret[-1].value.elts)
+    ts = [s for s in f.node.body if isinstance(s, ast.Assign) and isinstance(s.targets[0], ast.Name) and s.targets[0].id == ts_name]
     if len(ts) != 1:
         raise AnalysisError("_pearl_chain_method: TS definition not found")
 
@@ -349,7 +354,7 @@ def _r3(ctx):
         if is_self_attr(e, "_slope"):
             return "slope"
         if isinstance(e, ast.Name):
-            return e.id
+            return "TN" if e.id == tn_name else e.id
         return None
     got = to_nf(ts[0].value, atom=atom)
     v = prog.func("pylife.materiallaws.woehlercurve:WoehlerCurve._validate")
@@ -373,11 +378,15 @@ def _r3(ctx):
     c = prog.func(PKG + "elementary:Elementary._common_analysis")
     d = [n for n in ast.walk(c.node) if isinstance(n, ast.Dict)]
     ok = False
-    if d:
+    unp = [s_ for s_ in walk_function(c.node) if isinstance(s_, ast.Assign) and isinstance(s_.targets[0], ast.Tuple) and
+           isinstance(s_.value, ast.Call) and is_self_attr(s_.value.func, "_pearl_chain_method") and len(s_.targets[0].elts) == 2
+           and all(isinstance(x, ast.Name) for x in s_.targets[0].elts)]
+    if d and len(unp) == 1:
+        a_tn, a_ts = (x.id for x in unp[0].targets[0].elts)
         m = {const_value(k): v for k, v in zip(d[0].keys, d[0].values)}
         try:
             ok = to_nf(m["k_1"], atom=atom) == k1 and isinstance(m["TN"], ast.Name) and isinstance(m["TS"], ast.Name) and \
-                m["TN"].id == "TN" and m["TS"].id == "TS"
+                m["TN"].id == a_tn and m["TS"].id == a_ts
         except (KeyError, NFUnsupported):
             ok = False
     if ok:
